@@ -241,3 +241,81 @@ func verifC10Timeout() {
 	}
 	vReach("timeout-stalled")
 }
+
+// verifC10Accepted: the same clause on an inspected connection (ECH accepted, so
+// Read keeps parsing records): the context is cancelled after NewConn returned;
+// the following reads of the relay - a change_cipher_spec record, then, after a
+// HelloRetryRequest, the retried hello - and the writes still work, and no
+// deadline is ever installed.
+func verifC10Accepted() {
+	vSchedForks(true)
+	tr := newVBlockingTransport()
+	name := []byte("pub.example")
+	k := vMakeKey(0, 7, [][2]uint16{{1, 1}}, name)
+	outer := vHello{version: 0x0303, random: make([]byte, 32), sid: []byte{9}, suites: []byte{0x13, 0x01}, comp: []byte{0}}
+	outer.exts = []vExt{vSNI(name), vVersions(0x0304), {51, []byte{1}}, {0xfe0d, nil}}
+	inner := vHello{version: 0x0303, random: make([]byte, 32), suites: []byte{0x13, 0x02}, comp: []byte{0},
+		exts: []vExt{vSNI([]byte("in")), vECHInner(), vVersions(0x0304)}}
+	s := vSeal(k, 1, 1, outer, 3, vEncodeInner(inner, 0))
+	tr.in = s.outer.record()
+	ctx, cancel := context.WithCancel(context.Background())
+	c, err := NewConn(ctx, tr, WithKeys([]Key{k.key()}))
+	vAssert(err == nil && c.ECHAccepted(), "accepted")
+	if vBool() {
+		vYield()
+	}
+	cancel()
+	left := vQuiesce()
+	vAssert(left == 0 && tr.nonzero == 0 && !tr.past, "the cancelled context leaves the inspected connection alone")
+	buf := make([]byte, 600)
+	n, rerr := c.Read(buf) // the rewritten hello
+	vAssert(n > 0 && rerr == nil, "the rewritten hello is readable")
+	ccs := vRecord(20, 0x0303, []byte{1})
+	tr.deliver(ccs)
+	n, rerr = c.Read(buf)
+	vAssert(n == len(ccs) && rerr == nil, "an inspected Read after the cancellation works")
+	hrr := vServerHello(vHRRRandom, outer.sid)
+	n, werr := c.Write(hrr)
+	vAssert(n == len(hrr) && werr == nil, "an inspected Write after the cancellation works")
+	inner2 := inner
+	inner2.exts = []vExt{vSNI([]byte("in")), vECHInner(), vVersions(0x0304), {51, []byte{2}}}
+	outer2 := outer
+	outer2.exts = []vExt{vSNI(name), vVersions(0x0304), {51, []byte{2, 2}}, {0xfe0d, nil}}
+	s2 := vSealWith(s.sender, []byte{}, k.id, 1, 1, outer2, 3, vEncodeInner(inner2, 0))
+	tr.deliver(s2.outer.record())
+	n, rerr = c.Read(buf)
+	vAssert(n > 0 && rerr == nil, "the retried hello is processed after the cancellation")
+	vAssert(tr.nonzero == 0 && !tr.past, "no deadline was installed by any of it")
+	vReach("accepted-after-cancel")
+}
+
+// verifC10CancelledAtEntry: the context has already ended when NewConn is called
+// and the whole hello is available: whatever NewConn decides, a connection it
+// returns carries no deadline and works; a failure is a clean one.
+func verifC10CancelledAtEntry() {
+	vSchedForks(true)
+	tr := newVBlockingTransport()
+	hello := vPlainHello()
+	tr.in = hello
+	ctx, cancel := context.WithCancel(context.Background())
+	cancel()
+	c, err := NewConn(ctx, tr)
+	left := vQuiesce()
+	vAssert(left == 0, "no goroutine is left behind")
+	if err != nil {
+		vAssert(tr.closed, "a failed NewConn ends the stream")
+		vReach("entry-failed")
+		return
+	}
+	vAssert(!tr.past, "a connection returned under an already cancelled context carries no expired deadline")
+	buf := make([]byte, 256)
+	n, rerr := c.Read(buf)
+	vAssert(n == len(hello) && rerr == nil, "the hello is readable")
+	rec := vRecord(23, 0x0303, []byte{1, 2})
+	tr.deliver(rec)
+	n, rerr = c.Read(buf)
+	vAssert(n == len(rec) && rerr == nil, "later reads work")
+	n, werr := c.Write(rec)
+	vAssert(n == len(rec) && werr == nil, "later writes work")
+	vReach("entry-ok")
+}
